@@ -1,7 +1,8 @@
 (* c14_driver.ml — runs the extracted spanning-tree model (coq/Model/SpanTree.v).
    Input lines (lattice as in lat_driver.ml; lists are "<n> x1 .. xn"; optional nat "N" = INVALID / -1):
-     span <lattice> <keys: list hex (empty list = identity order)>
-          <ep: list of (onat onat)> <pes: list of (list nat)> <impl tree: list onat>
+     span <lattice> <keys: list hex (sort keys for shortest_edges_only=True)>
+          <ep: list of (onat onat)> <pes: list of (list nat)>
+          <impl tree, shortest_edges_only=False: list onat> <impl tree, True: list onat>
      flip <n hex> <u: list hex> <tree: list nat>
      flipall <u: list hex> <tree: list nat>        every n < 2^k, one token of E chars +/- per n
    Output: "key tokens..." lines followed by "end". *)
@@ -27,27 +28,37 @@ let cmd_span c =
   let keys = next_list c next_z in
   let ep = next_list c (fun c -> let a = next_onat c in let b = next_onat c in (a, b)) in
   let pes = next_list c (fun c -> next_list c next_nat) in
-  let itree = next_list c next_onat in
-  let order = (match keys with [] -> order_id | _ -> order_by_key keys) in
-  (match find_all_plaquettes l with
-   | None -> out "mp" "ERR"
-   | Some ps -> out "mp" (string_of_int (List.length ps)));
-  (* exact candidate order as coded (informational) *)
-  (match plaquette_spanning_tree order ep pes with
-   | None -> out "ttree" "ERR"
-   | Some t -> out "ttree" (s_list s_onat t));
-  (* replay: the implementation's choice first *)
-  let choice = List.map (fun o -> match o with Some e -> e | None -> O) itree in
-  (match plaquette_spanning_tree (order_front choice) ep pes with
-   | None -> out "ftree" "ERR"
-   | Some t -> out "ftree" (s_list s_onat t));
-  (match spanning_tree_of_lattice (order_front choice) l with
-   | None -> out "mftree" "ERR"
-   | Some t -> out "mftree" (s_list s_onat t));
+  let itrees = [ next_list c next_onat; next_list c next_onat ] in   (* shortest_edges_only = False, True *)
+  let nf = List.length pes in
+  (* the model's own tables, computed once *)
+  let mtab = (match find_all_plaquettes l with
+      | None -> out "mp" "ERR"; None
+      | Some ps -> out "mp" (string_of_int (List.length ps));
+        Some (edges_plaquettes l ps, List.map (fun p -> p.p_edges) ps)) in
   out "agree" (s_bool (ep_agrees ep pes));
-  (match all_some itree with
-   | None -> out "ist" "0"
-   | Some t -> out "ist" (s_bool (is_spanning_tree ep (nat_of_int (List.length pes)) t)))
+  List.iteri (fun j itree ->
+      let sfx = string_of_int j in
+      let order = (if j = 0 then order_id else order_by_key keys) in
+      (* exact candidate order as coded (informational; skipped on large inputs) *)
+      (if nf <= 60 then
+         (match plaquette_spanning_tree order ep pes with
+          | None -> out ("ttree" ^ sfx) "ERR"
+          | Some t -> out ("ttree" ^ sfx) (s_list s_onat t))
+       else out ("ttree" ^ sfx) "SKIP");
+      (* replay: the implementation's choice first *)
+      let choice = List.map (fun o -> match o with Some e -> e | None -> O) itree in
+      (match plaquette_spanning_tree (order_front choice) ep pes with
+       | None -> out ("ftree" ^ sfx) "ERR"
+       | Some t -> out ("ftree" ^ sfx) (s_list s_onat t));
+      (match mtab with
+       | None -> out ("mftree" ^ sfx) "ERR"
+       | Some (mep, mpes) ->
+         (match plaquette_spanning_tree (order_front choice) mep mpes with
+          | None -> out ("mftree" ^ sfx) "ERR"
+          | Some t -> out ("mftree" ^ sfx) (s_list s_onat t)));
+      (match all_some itree with
+       | None -> out ("ist" ^ sfx) "0"
+       | Some t -> out ("ist" ^ sfx) (s_bool (is_spanning_tree ep (nat_of_int nf) t)))) itrees
 
 let s_u (u : z list) =
   String.concat "" (List.map (fun x -> if x = Zpos XH then "+" else if x = Zneg XH then "-" else "?") u)
